@@ -20,7 +20,8 @@ EXPLANATION = (
     "stem in the slice reader and the slice writer; (R5) record counter advanced only by flush with records.len()."
     " (R6) append-buffer discipline for the CRAM header text reader and the name tokenizer's token reader."
     " R5 also decides, for the sync and the async flush, that the len() feeding `record_counter +=` is taken from the very collection (normalised place identity) that was handed to write_container."
-    " (R7) the reader recomputes TLEN of in-slice mates from min(start) and max(END) of both segments: both alignment_end() results feed one max().")
+    " (R7) the reader recomputes TLEN of in-slice mates from min(start) and max(END) of both segments: both alignment_end() results feed one max()."
+    " (R9) written-iff-present for the quality score array: every use of the QUALITY_SCORES_ARE_STORED_AS_ARRAY constant in the record converter lies behind a switch on quality_scores().is_empty() (violated today: known finding F31, `QUAL *` records written by noodles do not read back).")
 ASSUMPTIONS = ["flate2 Crc/CrcReader/CrcWriter compute CRC32 of exactly the bytes passed through", "md5 crate",
                "function-stem pairing (read_x <-> write_x) reflects the symmetric structure of the two record codecs (floor-checked)"]
 NOT_DECIDED = ["record equality: feature/CIGAR/base reconstruction, mate resolution, every encoder option x codec",
@@ -259,6 +260,10 @@ def run(ctx):
                               key, sorted(a10.fmt_ident(f, x) for x in counted if x), a10.fmt_ident(f, written) if written else "?"), f.loc())
     ctx.floor("C07.R5", "CRAM writer flush() bodies (sync + async)", nfl, 2)
 
+    ctx.rule("C07.R9", "written-iff-present: the quality-score-array flag is set only depending on the record having quality scores "
+                       "(the reader takes read_length bytes from the QS series whenever the flag is set)")
+    _qs_flag_rule(ctx)
+
     ctx.rule("C07.R7", "A7 span of a template: the reader recomputes TLEN of in-slice mates from min(start of both segments) and max(END of both "
                        "segments) — each alignment_end() result feeds the maximum")
     ft = ctx.anchor("C07.R7", K + "io::reader::container::slice::calculate_template_length_chunk")
@@ -274,6 +279,50 @@ def run(ctx):
                           "calculate_template_length_chunk no longer takes the template end as the maximum of BOTH segments' alignment ends "
                           "(alignment_end calls: %d, max() fed by both: %d, min(): %d): when the upstream read extends past its mate's end, |TLEN| "
                           "comes back too small on both mates" % (len(ends), len(fed), len(mins)), ft.loc())
+
+
+def _qs_flag_rule(ctx):
+    """written-iff-present for the quality score array: the CRAM flag QUALITY_SCORES_ARE_STORED_AS_ARRAY makes the reader take
+    read_length bytes from the QS series, so the writer may set it only on a path (or with a value) that depends on the record
+    HAVING quality scores. Every use of the flag constant in the record converter must be behind a switch on
+    `quality_scores().is_empty()`, or be the flag argument of a `set(flag, cond)` whose cond derives from that test."""
+    fb = ctx.fb
+    key = K + "io::writer::record::convert::<impl noodles_cram::io::writer::record::Record>::try_from_alignment_record"
+    f = ctx.anchor("C07.R9", key)
+    if f is None:
+        return
+    import json as _json
+    qs_calls = [c["dest"][0] for b, c in f.calls() if re.search(r"alignment::record::Record::quality_scores$", c.get("f") or "") and c.get("dest") and not c["dest"][1]]
+    tests = set()
+    for q in qs_calls:
+        der = a10._derived_from(f, q)
+        for b, c in f.calls():
+            if re.search(r"::(is_empty|len)$", c.get("f") or "") and c["args"] and C.op_local(c["args"][0]) in der and c.get("dest") and not c["dest"][1]:
+                tests |= a10._derived_from(f, c["dest"][0])
+    gates = {b for b, blk in enumerate(f.blocks) if not blk.get("cu") and blk["t"][0] == "sw" and C.op_local(blk["t"][1]) in tests}
+    uses = []
+    for b, blk in enumerate(f.blocks):
+        if blk.get("cu"):
+            continue
+        txt = _json.dumps(blk["s"]) + (_json.dumps(blk["t"][1]["args"]) if blk["t"][0] == "call" else "")
+        if "Flags::QUALITY_SCORES_ARE_STORED_AS_ARRAY" in txt:
+            uses.append(b)
+    if not uses or not qs_calls:
+        ctx.violation("C07.R9", "C07.R9/ANCHOR-MISSING/%s/flag" % key, "the record converter no longer mentions the quality-score array flag "
+                      "(uses: %d) or the record's quality scores (calls: %d)" % (len(uses), len(qs_calls)), f.loc())
+        return
+    open_ = C.reachable(f, 0, removed=gates) if 0 not in gates else set()
+    for b in uses:
+        t = f.blocks[b]["t"]
+        if t[0] == "call" and (t[1].get("f") or "").endswith("::set") and len(t[1]["args"]) == 3 and C.op_local(t[1]["args"][2]) in tests:
+            ctx.ok("C07.R9", key + " :: flag set(.., cond)", "cond derives from the emptiness of the record's quality scores", f.loc(b))
+        elif b in open_:
+            ctx.violation("C07.R9", "C07.R9/flag-set-unconditionally/" + key,
+                          "the converter sets QUALITY_SCORES_ARE_STORED_AS_ARRAY on a path that does not depend on the record having quality scores: "
+                          "for `QUAL *` the flag is written, no score bytes are, and the reader (which takes read_length bytes from the QS "
+                          "series when the flag is set) cannot decode noodles' own output", f.loc(b))
+        else:
+            ctx.ok("C07.R9", key + " :: flag use", "behind a switch on quality_scores().is_empty()", f.loc(b))
 
 
 def _writes_static(key):
